@@ -83,8 +83,14 @@ def gen_partfile(h: Harness, tier, workdir, known):
     return path, names, pres
 
 
+BUDGET = {"t0": None, "wall": None}  # thorough tier: stop scheduling new partitions once the wall budget is used
+
+
 def run_worker(job):
     partfile, fn, ctime, outjson = job
+    if BUDGET["wall"] is not None and time.time() - BUDGET["t0"] > BUDGET["wall"]:
+        return {"func": fn, "skipped": True, "messages": [], "error": None, "paths": 0, "reached": 0, "smt_queries": 0,
+                "smt_time_s": 0.0, "cex": [], "wall_s": 0.0, "stubs": []}
     ptime = max(20.0, ctime / 4)
     cmd = [VPY, "-m", "vlib.worker", partfile, fn, str(ctime), str(ptime), outjson]
     t0 = time.time()
@@ -239,16 +245,25 @@ def main():
         per_harness[h.name] = {"partitions": len(names), "confirmed": 0, "paths": 0, "reached": 0,
                                "pre": pres, "bounds": h.bounds, "generalises": h.generalises,
                                "timeout_s": t["timeout"]}
+        cap = 600 if tier == "thorough" else t["timeout"]
         for fn in names:
             out = os.path.join(workdir, fn + ".json")
-            jobs.append((partfile, fn, t["timeout"], out))
+            jobs.append((partfile, fn, min(t["timeout"], cap), out))
             jobinfo[fn] = h
     rng = random.Random(seed)
-    rng.shuffle(jobs)
-    jobs.sort(key=lambda j: -j[2])  # long ones first
-    obligations = len(jobs)
+    rng.shuffle(jobs)  # VERIF_SEED rotates which partitions come first when the thorough box exceeds the wall budget
+    if tier != "thorough":
+        jobs.sort(key=lambda j: -j[2])  # long ones first
+    else:
+        BUDGET["t0"], BUDGET["wall"] = time.time(), float(os.environ.get("VERIF_BUDGET_S", "1200"))
     with ThreadPoolExecutor(NPROC) as ex:
         results = list(ex.map(run_worker, jobs))
+    not_scheduled = [r["func"] for r in results if r.get("skipped")]
+    results = [r for r in results if not r.get("skipped")]
+    obligations = len(results)
+    if not_scheduled:
+        log(f"NOTE: property={pid} {len(not_scheduled)} of {len(jobs)} partitions of the thorough box were not scheduled within the wall budget "
+            f"({int(BUDGET['wall'])} s); they are outside this run's claim (VERIF_SEED rotates the order)")
     for r in results:
         h = jobinfo[r["func"]]
         ph = per_harness[h.name]
@@ -328,13 +343,14 @@ def main():
             "evaluations": max(paths, 0), "distinct_nontrivial": reached_total,
             "rule": "evaluations = symbolic paths completed (each path stands for the set of inputs satisfying its path condition; paths are pairwise disjoint by construction); distinct_nontrivial = those paths that reached the harness's oracle comparison (counter at that point)",
             "samples": samples[:12] or [{"note": "no sample"}],
-            "exhaustive": bool(obligations and discharged == obligations and not inconclusive),
+            "exhaustive": bool(obligations and discharged == obligations and not inconclusive and not not_scheduled),
             "functions_encoded": sorted(functions)[:400],
             "functions_encoded_note": "Hdl21 functions entered on the concrete sample path of each harness (lower bound of the code executed symbolically)",
             "bounds": bounds,
             "outside_bounds": sorted({h.outside for h in harnesses if h.outside}),
             "smt_queries": smt_n, "smt_time_s": round(smt_t, 2),
             "inconclusive": inconclusive, "unconfirmed_candidates": unconfirmed,
+            "partitions_not_scheduled_within_budget": not_scheduled,
             "per_harness": per_harness, "known_findings_reported": known_lines,
             "concrete_seeds": concrete_seeds, "smt_direct": smt_results,
             "stubs": sorted(stubs),
